@@ -9,7 +9,9 @@ import signal
 import time
 
 BEHAVIOURS = ['equal', 'different', 'player_raises', 'extractor_raises', 'comparator_raises', 'bare_status',
-              'exit', 'hang', 'late', 'hang_sigterm_ignored', 'dies_after_giveup']
+              'exit', 'hang', 'late', 'hang_sigterm_ignored', 'dies_after_giveup', 'bad_answer']
+# bad_answer: the worker answers, but the answer cannot be unpickled by the parent (dedicated mode only): a framework
+#             failure for that id while the worker stays alive and keeps serving
 # hang_sigterm_ignored: the replayed code has installed a SIGTERM handler (as services do) and then hangs
 # dies_after_giveup:    the worker hangs past the timeout and dies by itself right after the parent decided "timed out"
 #                       (window held open by a harness logging handler on the Equalizer's own warning)
@@ -50,6 +52,22 @@ class FakeRecording(object):
         return {}
 
 
+def _unpickle_poison(parent_pid):
+    if os.getpid() == parent_pid:
+        raise TypeError('this answer cannot be rebuilt in the parent process')
+    return None
+
+
+class Poison(object):
+    """Pickles fine in the worker, fails to unpickle in the parent."""
+
+    def __init__(self, parent_pid):
+        self.parent_pid = parent_pid
+
+    def __reduce__(self):
+        return (_unpickle_poison, (self.parent_pid,))
+
+
 class FakePlayback(object):
     """Small picklable stand-in for playback.tape_recorder.Playback."""
 
@@ -79,10 +97,12 @@ def children_of(pid):
     return out
 
 
-def expected_status(behaviour):
+def expected_status(behaviour, dedicated=True):
     from playback.studio.equalizer import EqualityStatus
     if behaviour in ('equal', 'bare_status'):
         return EqualityStatus.Equal
+    if behaviour == 'bad_answer':
+        return EqualityStatus.EqualizerFailure if dedicated else EqualityStatus.Equal
     if behaviour == 'different':
         return EqualityStatus.Different
     return EqualityStatus.EqualizerFailure
@@ -134,7 +154,10 @@ def run_scenario(scenario):
                 os._exit(3)
         elif b == 'player_raises':
             raise RuntimeError('player fails for %s' % rid)
-        return FakePlayback(rid)
+        pb = FakePlayback(rid)
+        if b == 'bad_answer' and os.getpid() != me:
+            pb.poison = Poison(me)
+        return pb
 
     def extractor(outputs):
         rid = outputs[0][1]
